@@ -62,7 +62,19 @@ func key(name string) string {
 	return fmt.Sprintf("%s#%d", name, k)
 }
 
+var frozen bool
+
+// Freeze(true) makes every scalar input the fixed value 1 / true until Freeze(false): used to build concrete base
+// instances whose bytes are then partly replaced by arbitrary ones.
+func Freeze(on bool) { frozen = on }
+
+// Frozen reports whether inputs are currently frozen.
+func Frozen() bool { return frozen }
+
 func val(name string) *big.Int {
+	if frozen {
+		return big.NewInt(1)
+	}
 	load()
 	s, ok := witness[key(name)]
 	if !ok {
